@@ -5,8 +5,10 @@
 //@@ TYPE src/parse/ast/node_op.rs | enum | NodeOp
 
 /// stand-ins for std::collections::{HashMap, HashSet}: same names, so the copied struct and signatures are verbatim
-#[derive(Clone, Debug, Default)] pub struct HashMap<K, V> { _k: PhantomData<K>, _v: PhantomData<V> }
-#[derive(Clone, Debug, Default, PartialEq, Eq, Hash)] pub struct HashSet<T> { _t: PhantomData<T> }
+#[derive(Clone, Debug)] pub struct HashMap<K, V> { _k: PhantomData<K>, _v: PhantomData<V> }
+#[derive(Clone, Debug, PartialEq, Eq, Hash)] pub struct HashSet<T> { _t: PhantomData<T> }
+impl<K, V> Default for HashMap<K, V> { fn default() -> Self { HashMap { _k: PhantomData, _v: PhantomData } } }
+impl<T> Default for HashSet<T> { fn default() -> Self { HashSet { _t: PhantomData } } }
 /// stand-in for the set-operation iterators (hash_set::Union / Intersection and Cloned<..> over them)
 pub struct SetIter<T> { _t: PhantomData<T> }
 pub type VarMapping = HashMap<String, usize>;
@@ -20,11 +22,10 @@ pub struct TrueName { _x: u8 }
 // companions of the derives (the real ones are hand-written in check/name/mod.rs; not extracted, never called here)
 impl PartialEq for Name { fn eq(&self, o: &Name) -> bool { unimplemented!() } }
 impl std::hash::Hash for Name { fn hash<H: std::hash::Hasher>(&self, state: &mut H) { unimplemented!() } }
-#[derive(Clone, Debug, Default, PartialEq, Eq, Hash)]
-pub struct Expected { _x: u8 }
+//@@ TYPE src/check/constrain/constraint/expected.rs | struct | Expected | pubfields
 pub struct Constraint { _x: u8 }
 //@@ TYPE src/check/constrain/constraint/expected.rs | enum | Expect
-use crate::Expect::Type;
+use crate::Expect::{Type, Expression, Function, Access, Field};
 pub struct Context { _x: u8 }
 pub struct TypeErr { _x: u8 }
 /// stand-in for the builder: the public field is real, everything private (constraint sets, branch bookkeeping, the
